@@ -794,10 +794,14 @@ class EventsSuite(Suite):
                     ts = [e.get("timestamp") for e in g]
                     if any(a > b for a, b in zip(ts, ts[1:])):
                         v.append(Violation("C20", "events.unsorted", f"{where}: events named {n!r} are not in timestamp order: {ts}"))
+                # from scratch again on the same logs: same summary (up to the order of events with equal timestamps,
+                # which follows the order in which the glob lists the files; the exact order is compared with the model)
                 snap = collections.Counter(canon(e) for e in visible)
-                if last_fresh is not None and last_fresh[0] == snap and last_fresh[1] != got:
+                norm = canon({"parquet": got["parquet"],
+                              "events": [[n, sorted(es, key=lambda e: (e.get("timestamp"), canon(e)))] for n, es in got["events"]]})
+                if last_fresh is not None and last_fresh[0] == snap and last_fresh[1] != norm:
                     v.append(Violation("C20", "events.not_idempotent", f"{where}: consolidating the same logs again from scratch changed the summary"))
-                last_fresh = (snap, got)
+                last_fresh = (snap, norm)
                 if got["events"] or got["parquet"]:
                     frozen = got
         return v
